@@ -18,6 +18,10 @@ func (c *Controller) handleEstablishLink(
 	if ref == nil {
 		return
 	}
+	handler.mtx.Lock()
 	handler.ref = ref
+	handler.mtx.Unlock()
+	c.mtx.Lock()
 	c.cleanupRefs = append(c.cleanupRefs, ref)
+	c.mtx.Unlock()
 }
